@@ -149,6 +149,7 @@ package redisemu
 //@ ensures str: istype(val, string) ==> istype(value.data, respBulkString)
 //@ ensures arr: istype(val, []any) ==> istype(value.data, respArray)
 //@ ensures same: istype(val, respValue) ==> value == unbox(val, respValue)
+//@ ensures maps: istype(val, map[string]any) ==> istype(value.data, respMap)
 
 //@ func redisGlob
 //@ trusted pure matcher over rune slices
